@@ -235,8 +235,17 @@ pub fn random_bytes(r: &mut Rng) -> Vec<u8> {
     let n = r.usize(65);
     let mut v = Vec::with_capacity(n);
     for _ in 0..n {
-        match r.below(6) {
+        match r.below(7) {
             0 => v.push(r.below(256) as u8),
+            // characters of the classes next to the ones the tokenizer tests for (numeric but not
+            // an ASCII digit, alphabetic but not a letter of any alphabet one thinks of, connector
+            // punctuation, non-ASCII white space, marks), usually right after a digit or a letter
+            6 => {
+                if r.chance(2, 3) {
+                    v.extend_from_slice([&b"1"[..], b"42", b"x", b"a1", b"_", b"0"][r.usize(6)]);
+                }
+                v.extend_from_slice(["\u{b2}", "\u{bd}", "\u{663}", "\u{2460}", "\u{2167}", "\u{ff11}", "\u{2b0}", "\u{203f}", "\u{a0}", "\u{2028}", "\u{3000}", "\u{20dd}", "\u{aa}", "\u{1d7d9}"][r.usize(14)].as_bytes());
+            }
             1 => v.extend_from_slice([&b"\xc3\xa9"[..], b"\xe2\x82\xac", b"\xf0\x9d\x91\xa5", b"\xcc\x81", b"\xff", b"\xc0\x80", b"\xed\xa0\x80"][r.usize(7)]),
             _ => v.extend_from_slice(b"abx01 ()+-*/=<>:;{}#\n\t_if then else type int bool true false"[..].chunks(1).nth(r.usize(55)).unwrap_or(b" ")),
         }
